@@ -140,6 +140,17 @@ class Opaque:
         self.what = what
 
 
+class MaybeNone(Opaque):
+    """An uninterpreted object reference that may also be None (an optional field the contract says nothing about):
+    `x is None`, `x is not None` and the truth value of x are decided by one unconstrained boolean per value."""
+    _ctr = [0]
+
+    def __init__(self, what=""):
+        Opaque.__init__(self, what)
+        MaybeNone._ctr[0] += 1
+        self.is_none = z3.Bool("maybe_none_%s!%d" % (what, MaybeNone._ctr[0]))
+
+
 class LambdaV:
     def __init__(self, node, env):
         self.node, self.env = node, env
@@ -688,6 +699,8 @@ class Engine:
             if c[0] == "dict":
                 return z3.Length(self.dkeys(c[1])) > 0
             return z3.BoolVal(True)
+        if isinstance(v, MaybeNone):
+            return z3.Not(v.is_none)
         if isinstance(v, (Opaque, ClassRef, FuncRef, ExtRef, LambdaV, Bound)):
             return z3.BoolVal(True)
         return z3.BoolVal(bool(v))
